@@ -722,6 +722,7 @@ type c17Doc struct {
 	ByName   map[string]*c17Doc
 	hidden   int
 }
+type c17Key string
 type C17Pub struct{ ID int }
 type c17Emb struct {
 	C17Pub
@@ -739,8 +740,14 @@ func c17GoIndexing(r *Run) {
 	totals := map[string]int{"2024": 7, "k": 1, "007": 9}
 	byYear := map[string][]string{"2024": {"a", "b"}}
 	nested := map[string]map[string][]int{"1": {"2": {5, 6}}}
+	// maps keyed by an interface type (what generic decoders produce) or by a named string type, and a pointer to a map
+	ak := map[any]any{"name": "nm", "tags": []any{"t0", "t1"}, 7: "seven", "sub": map[any]any{"deep": "dv"}}
+	ifs := map[interface{}]string{"k": "v"}
+	nk := map[c17Key]int{"a": 1, "b": 2}
+	pm := map[string]int{"z": 26}
 	st := vuego.NewStackWithData(map[string]any{"doc": doc, "pdoc": &doc, "emb": emb, "list": []any{doc, &doc},
-		"ids": &ids, "arr": &arr, "totals": totals, "byYear": byYear, "nested": nested, "anymap": map[string]any{"0": "zero", "10": []any{"x"}}}, doc)
+		"ids": &ids, "arr": &arr, "totals": totals, "byYear": byYear, "nested": nested, "anymap": map[string]any{"0": "zero", "10": []any{"x"}},
+		"ak": ak, "pak": &ak, "ifs": ifs, "nk": nk, "pm": &pm, "wrap": []any{ak}}, doc)
 	type chk struct {
 		path string
 		want any
@@ -762,6 +769,8 @@ func c17GoIndexing(r *Run) {
 		{"byYear.2024[1]", byYear["2024"][1], true}, {"byYear.2024.0", byYear["2024"][0], true}, {"byYear.2024.2", nil, false},
 		{"nested.1.2.1", nested["1"]["2"][1], true}, {"nested.1.3", nil, false},
 		{"ids[1]", ids[1], true}, {"ids.2", ids[2], true}, {"ids.3", nil, false}, {"arr.0", arr[0], true}, {"arr[1]", arr[1], true}, {"arr.2", nil, false},
+		{"ak.name", "nm", true}, {"ak.tags.1", "t1", true}, {"ak.tags[0]", "t0", true}, {"ak.sub.deep", "dv", true}, {"ak.missing", nil, false}, {"pak.name", "nm", true},
+		{"ifs.k", "v", true}, {"ifs.zz", nil, false}, {"nk.a", 1, true}, {"nk.b", 2, true}, {"nk.c", nil, false}, {"pm.z", 26, true}, {"pm.y", nil, false}, {"wrap.0.name", "nm", true},
 		{"anymap.0", "zero", true}, {"anymap.10.0", "x", true}, {"anymap.1", nil, false},
 		{"Name", doc.Name, true}, {"Name2", doc.Name2, true}, {"Tags.1", doc.Tags[1], true}, {"Next.Name", leaf.Name, true}, {"hidden", nil, false},
 	}
